@@ -9,14 +9,14 @@ package main
 import (
 	"bytes"
 	"context"
-	"io"
-	"net/http"
 	"crypto/ed25519"
 	"crypto/sha256"
 	"encoding/base64"
 	"encoding/json"
 	"fmt"
+	"io"
 	"math/rand"
+	"net/http"
 	"sort"
 	"strings"
 	"time"
@@ -520,6 +520,26 @@ func init() {
 		}
 		return args, np
 	})
+	// [public key bytes]: keys of any length against a WELL-FORMED (64-byte) signature: the paths
+	// that hand a remote-supplied key to ed25519.Verify (VerifyJSON directly, the verify_keys and
+	// old_verify_keys of a key response)
+	RegisterImpl("C18.verifykey", func(args [][]byte) ([][]byte, []byte) {
+		key := args[0]
+		sig := strings.Repeat("A", 86)
+		msg := []byte(`{"a":1,"signatures":{"srv":{"ed25519:1":"` + sig + `"}}}`)
+		_ = gmsl.VerifyJSON("srv", "ed25519:1", ed25519.PublicKey(key), msg)
+		k64 := spec.Base64Bytes(key).Encode()
+		for _, resp := range []string{
+			`{"server_name":"srv","valid_until_ts":9999999999999,"verify_keys":{"ed25519:1":{"key":"` + k64 + `"}},"old_verify_keys":{},"signatures":{"srv":{"ed25519:1":"` + sig + `"}}}`,
+			`{"server_name":"srv","valid_until_ts":9999999999999,"verify_keys":{"ed25519:2":{"key":"` + strings.Repeat("A", 43) + `"}},"old_verify_keys":{"ed25519:1":{"key":"` + k64 + `","expired_ts":1}},"signatures":{"srv":{"ed25519:1":"` + sig + `","ed25519:2":"` + sig + `"}}}`,
+		} {
+			var keys gmsl.ServerKeys
+			if json.Unmarshal([]byte(resp), &keys) == nil {
+				_, _ = gmsl.CheckKeys("srv", time.Now(), keys)
+			}
+		}
+		return args, np
+	})
 	// [version; event json...]: events LINKED through their auth_events / prev_events: event i names
 	// the IDs of the accepted events before it, so that auth chains, the auth-event maps of state
 	// resolution and the orderings are walked with hostile events in every position
@@ -894,6 +914,10 @@ func genC18(c *Ctx) {
 				"C18.nopanic", "", "a power-level event naming itself as auth event")
 			c.Count("cycle")
 		}
+	}
+	for _, n := range []int{0, 1, 16, 31, 32, 33, 48, 63, 64, 65, 100} {
+		c.Run("C18.verifykey", [][]byte{bytes.Repeat([]byte{7}, n)}, "C18.nopanic", "", fmt.Sprintf("public key of %d bytes", n))
+		c.Count("verifykey")
 	}
 	// 1. hostile single events, every version
 	n := c.Scale(120, 1500)
